@@ -395,7 +395,11 @@ func reportProperty(prog *Program, p, tier string, seed int, verif string, ctxs 
 	violation := false
 	nviol := 0
 	var failing []string
-	os.MkdirAll(filepath.Join(verif, "replays"), 0755)
+	replayDir := filepath.Join(verif, "replays")
+	if d := os.Getenv("VERIF_REPLAY_DIR"); d != "" {
+		replayDir = d // self-test and seeded-change runs keep their replay files out of /verif/replays
+	}
+	os.MkdirAll(replayDir, 0755)
 	emit := func(name, why, detail string, o *Obligation) {
 		for _, k := range known.Findings {
 			if k.Property == p && (k.Obligation == name || k.Obligation == reRetSuffix.ReplaceAllString(name, "")) {
@@ -405,7 +409,7 @@ func reportProperty(prog *Program, p, tier string, seed int, verif string, ctxs 
 		}
 		violation = true
 		nviol++
-		rp := filepath.Join(verif, "replays", p+"-"+sanitize(name)+".json")
+		rp := filepath.Join(replayDir, p+"-"+sanitize(name)+".json")
 		rec := map[string]interface{}{"property": p, "obligation": name, "reason": why, "detail": detail}
 		suffix := " no-failing-input-found"
 		if o != nil {
@@ -414,7 +418,7 @@ func reportProperty(prog *Program, p, tier string, seed int, verif string, ctxs 
 			rec["solver"] = o.Solver
 			rec["solver_output"] = truncate(o.Model, 20000)
 			rec["clause"] = o.Detail
-			if o.Result == "sat" {
+			if o.Result == "sat" && os.Getenv("VERIF_NO_REPLAY") == "" {
 				if rr := tryReplay(prog, o, verif); rr != nil {
 					rec["replay"] = rr
 					if rr.Confirmed {
